@@ -5,6 +5,7 @@ import (
 	"context"
 	"fmt"
 	"io"
+	"strings"
 
 	md "github.com/ddddddO/gtree/markdown"
 )
@@ -21,13 +22,19 @@ func split(ctx context.Context, r io.Reader) (<-chan string, <-chan error) {
 		}()
 
 		block := ""
+		// once a "#" root has appeared, list items at column 0 are children of the preceding
+		// "#" root (see markdown.Parser), so only "#" lines begin a new root block from then on
+		sharpRoot := false
 		for sc.Scan() {
 			select {
 			case <-ctx.Done():
 				return
 			default:
 				l := sc.Text()
-				if isRootBlockBeginning(l) {
+				if strings.HasPrefix(l, "#") {
+					sharpRoot = true
+				}
+				if isRootBlockBeginning(l, sharpRoot) {
 					if len(block) != 0 {
 						verifPoint("split.send")
 						select {
@@ -58,9 +65,12 @@ func split(ctx context.Context, r io.Reader) (<-chan string, <-chan error) {
 	return blockc, errc
 }
 
-func isRootBlockBeginning(l string) bool {
+func isRootBlockBeginning(l string, sharpRoot bool) bool {
 	if len(l) == 0 {
 		return false
+	}
+	if sharpRoot {
+		return l[0:1] == "#"
 	}
 	return md.IsSymbol(l[0:1])
 }
